@@ -42,7 +42,8 @@ def locking_case(draw):
   prefill = draw(st.sampled_from([0, 0, 1, 3, 497, 498, 499, 500, 500]))
   n = draw(st.integers(1, 14))
   ops = draw(st.lists(st.sampled_from(["append", "append", "appendleft", "appendleft", "consume",
-                                       "consume_right", "clear", "len", "popleft", "pop", "wait_only"]),
+                                       "consume_right", "clear", "len", "popleft", "pop", "wait_only", "wait_only",
+                                       "finish", "finish"]),
                       min_size=n, max_size=n))
   return {"kind": "locking", "prefill": prefill, "ops": ops}
 
@@ -71,7 +72,7 @@ class C16(Prop):
           "fresh chart and draining it through complete_circuit. (b) LockingDeque (the active "
           "object's queue) with pre-fill 0/1/3/497..500 and up to 14 operations append, "
           "appendleft, consume (= wait(block=False)+popleft), consume_right (wait+pop), raw popleft/pop "
-          "(taken straight out, leaving their token behind), wait_only (a consumer in flight: token "
+          "(taken straight out, leaving their token behind), finish (a consumer in flight reports its wake-up done), wait_only (a consumer in flight: token "
           "taken, event not yet popped), clear, len, with the token queue class substituted by a subclass that raises instead of "
           "blocking forever. Oracle: length <= capacity; below capacity a post adds exactly the "
           "new item at the back (fifo) / front (lifo); at capacity the new item is at the back / "
@@ -106,6 +107,7 @@ class C16(Prop):
   def run_locking(self, prefill, ops, upto):
     """Apply prefill + ops[:upto] to a fresh LockingDeque; return (drained ids, tokens, results)."""
     ld = self.make_ld()
+    inflight_tokens = [0]
     nid = 0
     for _ in range(prefill):
       nid += 1
@@ -142,8 +144,19 @@ class C16(Prop):
         try:
           ld.wait(block=False)
           results.append("token")
+          inflight_tokens[0] += 1
         except stdqueue.Empty:
           results.append("empty")
+      elif op == "finish":
+        # a consumer that took its wake-up token earlier (wait_only) reports the work done, as the
+        # active object's thread does after every wake-up: never an error, whatever happened to the
+        # queue in between (a clear(), for instance)
+        if inflight_tokens[0] > 0:
+          inflight_tokens[0] -= 1
+          ld.task_done()
+          results.append("finished")
+        else:
+          results.append("nobody")
       elif op in ("popleft", "pop"):
         # taken straight out, without first waiting for a wake-up token
         try:
@@ -245,6 +258,9 @@ class C16(Prop):
             rest = prev[1:] if op == "consume" else prev[:-1]
             if res != exp or content != rest:
               raise PropertyViolation("%s: consumed %s, expected %s" % (where, res, exp), "C16:consume")
+        elif op == "finish":
+          if content != prev:
+            raise PropertyViolation("%s: reporting a wake-up as done changed the queue content" % where, "C16:wait")
         elif op == "wait_only":
           if content != prev:
             raise PropertyViolation("%s: taking a token changed the queue content" % where, "C16:wait")
